@@ -17,7 +17,7 @@ TABLE: dict[str, dict[str, str]] = {
                 text="Decides for all programs: opcode and parameter order of every condition/header/case/assignment form, the label/jump skeleton every block construct emits for every body-shape class, and the op-removal discipline of the post-passes. Does not decide whole-program behaviour (user label graphs, interplay of passes). Interpreter-based rules decide the enumerated shapes for every outcome of every test, not all programs (DESIGN.md 9.2).",
                 note="Oracle tables under esv/spec written from docs/language_spec.rst and the SSB machine model; CPython ast; the grammar reader esv/engine/g4.py.", ref="§4 C01"),
     "C02": dict(cat="other", tech="grammar-parsed print templates pushed through the compiler's form model (writer/reader agreement) + dispatch exhaustiveness + edge-attribute conventions + entry preservation; round trip compile -> decompile -> compile with every stage interpreted (parser runtime, graph library and file system modelled) over general, nested and flat program families, a fixed pseudo-random sample of deeper mixed programs, hand-made routine sets and two exhaustive families of small routines (every routine of up to 3/4 ops over plain, End, Jump, Branch, Call, Return; one Switch with up to three cases and up to three ops behind them), flow graphs compared by bisimulation; both orders of every iterated set of graph elements",
-                text="Decides necessary conditions only: every special opcode is printed in a spelling that compiles back to the same op with equal parameters, dispatch tables are exhaustive, producer/consumer conventions of edge attributes agree, the routine entry vertex is never deleted. The structuring heuristics themselves are not decided. R7 decides behaviour preservation for the enumerated program shapes and for every routine of up to 3 ops (thorough: 4 ops) over plain op / End / Jump / Branch, for all test outcomes; four routines of the 4-op family are recorded as known findings (thorough tier).",
+                text="Decides necessary conditions only: every special opcode is printed in a spelling that compiles back to the same op with equal parameters, dispatch tables are exhaustive, producer/consumer conventions of edge attributes agree, the routine entry vertex is never deleted. The structuring heuristics themselves are not decided. R7 decides behaviour preservation for the enumerated program shapes and for every routine of up to 3 ops (thorough: 4 ops) over plain op / End / Jump / Branch, for all test outcomes.",
                 note="Same trusted base as C01; the 1 600 lines of graph rewriting are outside any sound static argument in reach.", ref="§4 C02"),
     "C03": dict(cat="other", tech="type-flow and who-may-write rules on the op list (no pseudo-op survives, target appended last, offset sources, table lengths); compile() interpreted on program families and macro projects: offsets unique, jump targets closed, no pseudo op, tables of one length",
                 text="Decides the structural half of every clause of C03 for all programs: only real ops reach routine_ops, the jump target is appended last and agrees with the decompiler's index table, every offset comes from the monotone counter or replaces an op one-for-one, label offsets denote surviving ops, the three routine tables grow together. Not decided: raw user-written jump opcodes.",
